@@ -3,8 +3,10 @@
    Same model as C03 (Model/Status.v, Model/History.v); [current] = the code in /repo.
    Writes may carry ANY mtime (WriteAt/TouchAt), older or newer than what is recorded; the hypothesis
    FS-fresh is [hist_ok]: one file never carries the same mtime with two different contents
-   (forward-clock histories satisfy it: C03_forward_clock_is_fresh). *)
-From DoitV Require Import Base Status History StatusP HistoryP.
+   (forward-clock histories satisfy it: C03_forward_clock_is_fresh).
+   The theorems C04_getargs_* at the end are about whole runs over tasks that take values from other tasks
+   (getargs / result_dep; Model/Getargs.v). *)
+From DoitV Require Import Base Status History Getargs StatusP HistoryP GetargsP.
 Open Scope Z_scope.
 
 (* converse of C03_uptodate_sound: in the state reached by ANY history, if no uptodate item is
@@ -160,3 +162,88 @@ Proof.
   split; [vm_compute; reflexivity|]. split; [vm_compute; reflexivity|]. vm_compute. right. split; reflexivity.
 Qed.
 Print Assumptions C04_md5_same_mtime_refuted.
+
+(* ================= values taken from other tasks: getargs / result_dep (Model/Getargs.v) ================= *)
+
+(* one recording step, in ANY state: the value saver of a result_dep item (explicit, or implicit through getargs) stores the result
+   the provider's record holds at the moment of the SaveOk -- not what the item saw when the task was checked; so right after it the
+   saved `_result:<src>` equals the provider's current result *)
+Theorem C04_getargs_saveok_reads_latest : forall (md5 : N -> N) (size_of : N -> Z) (s : state) (t src : name),
+  let s' := step md5 size_of current s (SaveOk t) in
+  (match s_log s' with OSave _ SaveDone :: _ => True | _ => False end) ->
+  In (UResultDep src) (uptodate (s_defs s t)) -> src <> t ->
+  vget (get_values (s_db s') t) (k_result src) = Some (get_result (s_db s') src).
+Proof. intros md5 size_of s t src. exact (saveok_reads_latest md5 size_of current s t src). Qed.
+Print Assumptions C04_getargs_saveok_reads_latest.
+
+(* a whole run of the serial runner (`doit run --continue sel`, the actions of `failing` fail) after ANY run-level history that respects
+   FS-fresh, over any task set without cyclic dependencies (the run ends with both flags clear): every task t the run executed and saved
+   (final code 0) holds, for EVERY result_dep item -- providers that ran before t was checked (task_dep), between its check and its
+   execution (setup-task of getargs), or not at all -- the result the provider's record holds at the END of the run.  The item is then
+   true unless the provider has no result at all. *)
+Theorem C04_getargs_saved_result_current : forall (md5 : N -> N) (size_of : N -> Z) (l : list gop) (sel failing : list name) (t src : name),
+  ghist_ok md5 size_of current l = true ->
+  let a := run_after md5 size_of current l sel failing in
+  ra_cyc a = false -> ra_fuel a = false -> fin_of (ra_fin a) t = Some 0 ->
+  In (UResultDep src) (uptodate (eff (gs_defs (grun md5 size_of current l) t))) ->
+  vget (get_values (s_db (ra_s a)) t) (k_result src) = Some (get_result (s_db (ra_s a)) src) /\
+  eval_utd (s_db (ra_s a)) t (UResultDep src) = Some (match get_result (s_db (ra_s a)) src with Some _ => true | None => false end).
+Proof.
+  intros md5 size_of l sel failing t src Hok.
+  destruct (grun_inv md5 size_of current eq_refl eq_refl l Hok) as [Hg Hd].
+  exact (run_result_current md5 size_of current eq_refl eq_refl _ _ run_fuel _ sel t src Hg Hd).
+Qed.
+Print Assumptions C04_getargs_saved_result_current.
+
+(* ... and the second look at such a task (what the immediately repeated run asks first): t is NOT executed again  <->  no item other
+   than result_dep is false, every provider's record holds a result, and t has a file_dep or an evaluated item.  In particular a
+   consumer whose provider was (re-)executed as its setup-task, with whatever new result, is not executed a second time. *)
+Theorem C04_getargs_rerun : forall (md5 : N -> N) (size_of : N -> Z) (l : list gop) (sel failing : list name) (t : name),
+  ghist_ok md5 size_of current l = true ->
+  let g := grun md5 size_of current l in
+  let a := run_after md5 size_of current l sel failing in
+  ra_cyc a = false -> ra_fuel a = false -> fin_of (ra_fin a) t = Some 0 ->
+  status_is_ignore (s_db (ra_s a)) t = false ->
+  (forall x, In x (targets (eff (gs_defs g t))) -> exists_ (s_fs (gs_s g)) x = true) ->
+  (executes md5 current (ra_s a) t false = false <->
+     (forall u, In u (uptodate (eff (gs_defs g t))) ->
+        match u with
+        | UResultDep src => get_result (s_db (ra_s a)) src <> None
+        | _ => eval_utd (s_db (ra_s a)) t u <> Some false
+        end) /\
+     (file_dep (eff (gs_defs g t)) <> [] \/ exists u b, In u (uptodate (eff (gs_defs g t))) /\ eval_utd (s_db (ra_s a)) t u = Some b)).
+Proof.
+  intros md5 size_of l sel failing t Hok.
+  destruct (grun_inv md5 size_of current eq_refl eq_refl l Hok) as [Hg Hd].
+  exact (run_second_look md5 size_of current eq_refl eq_refl _ _ run_fuel _ sel t Hg Hd).
+Qed.
+Print Assumptions C04_getargs_rerun.
+
+(* ---- non-vacuity: the consumer T0 (file dep 0, getargs from T1) is defined first, T1 (file dep 1) produces the value and a result ---- *)
+Definition e_cons : rdef := {| rd_def := {| file_dep := [0%N]; targets := []; uptodate := []; act_values := []; act_result := None |}; rd_getargs := [(1, 0)]%N |}.
+Definition e_prov (r : N) : rdef :=
+  {| rd_def := {| file_dep := [1%N]; targets := []; uptodate := []; act_values := [(2%N, Some 5%N)]; act_result := Some r |}; rd_getargs := [] |}.
+Definition e_gl : list gop := [GP (Write 0 0); GP (Write 1 1); GSetDef 0 e_cons; GSetDef 1 (e_prov 1)]%N.
+
+(* plain `doit`, three times: the first run checks T0, runs T1 as its setup-task, then T0; the other two execute nothing that has a dependency
+   (T2 has no dependency at all: it runs every time) *)
+Example C04_getargs_nonvacuous :
+  let a := run_after (fun c => c) (fun _ => 4) current e_gl [0; 1; 2]%N [] in
+  ghist_ok (fun c => c) (fun _ => 4) current e_gl = true /\ ra_cyc a = false /\ ra_fuel a = false /\
+  ra_fin a = [(1%N, 0); (0%N, 0); (2%N, 0)] /\
+  In (UResultDep 1%N) (uptodate (eff (gs_defs (grun (fun c => c) (fun _ => 4) current e_gl) 0%N))) /\
+  get_result (s_db (ra_s a)) 1%N = Some 1%N /\ executes (fun c => c) current (ra_s a) 0%N false = false /\
+  gs_out (grun (fun c => c) (fun _ => 4) current (e_gl ++ [GRun [0; 1; 2] []; GRun [0; 1; 2] []; GRun [0; 1; 2] []])%N)
+    = [1; 0; 0; 0; 2; 0; -8;  0; 2; 1; 2; 2; 0; -8;  0; 2; 1; 2; 2; 0; -8].
+Proof. vm_compute. repeat split; auto. Qed.
+
+(* only the consumer selected; later its file AND the provider (file and result) change: the provider re-executes as the setup-task with the
+   new result 2, the consumer saves 2 and the repeated run executes nothing *)
+Example C04_getargs_provider_reexecuted :
+  let l := (e_gl ++ [GRun [0] []; GP (Write 0 3); GP (Write 1 3); GSetDef 1 (e_prov 2)])%N in
+  let a := run_after (fun c => c) (fun _ => 4) current l [0%N] [] in
+  ghist_ok (fun c => c) (fun _ => 4) current l = true /\ ra_cyc a = false /\ ra_fuel a = false /\
+  ra_fin a = [(1%N, 0); (0%N, 0)] /\
+  vget (get_values (s_db (ra_s a)) 0%N) (k_result 1%N) = Some (Some 2%N) /\
+  gs_out (grun (fun c => c) (fun _ => 4) current (l ++ [GRun [0] []; GRun [0] []])%N) = [1; 0; 0; 0; -8;  1; 0; 0; 0; -8;  0; 2; -8].
+Proof. vm_compute. repeat split; auto. Qed.
